@@ -359,7 +359,7 @@ def closed_forms(repo, rep):
 
 
 def run(repo, rep, tier):
-    rep.rule("R-C01-7", "every parameter of the functions behind this property is read (statistics): none is accepted and then ignored")
+    rep.rule("R-C01-7", "every parameter of the functions behind this property is read (statistics): none is accepted and then ignored, and no control parameter (cutoff, limit, tolerance, window, count, switch) is replaced by another value before use (coercion and default filling aside)")
     from .shared import unused_parameters
     unused_parameters(repo, rep, "R-C01-7", ("wavespectra.specarray", "wavespectra.core.npstats", "wavespectra.core.xrstats", "wavespectra.core.utils"), "statistics")
     rep.rule("R-C01-1", "the inferred units of every integrated statistic equal its CF units in attributes.yml (helpers: definitions)")
